@@ -15,21 +15,21 @@ NOTE = ("Trusted base: CPython 3.12 semantics of the constructs modelled; the en
 ADDENDA = {
     "C01": "Added: (R01b) the shared-suffix scan is confined to what follows the shared prefix in both sequences; (R01h) no truthiness tests on nodes. Round 4: (E11) one-shot iterators are not re-walked in an outer loop. Hunting wave 3: recorded defects that also break this property are run here (R02h XML tail text, R02b, R02l, R03h, H13) and reported as known findings. Variants batch 4: (R01d) every keyed edit FixedKeyDictNode builds takes its sub-edits from the analysed partition _child_edits(); (R01b) where the trimming scans are written in a form the analysis does not read, side symmetry of the trimming region is decided instead.",
     "C02": "Added: (R02g) leaf equality keeps booleans and numbers apart; (R02h) every part of a parsed XML element (incl. tail text) reaches the tree - known finding; (R03a, uncounted sub-edits) every sub-edit a compound lists is counted by its bounds, also through constructor-cached cost fields; a second recogniser accepts the two-row form of the distance table. Round 3: (R02c3) the prefix and suffix trims of the string distance cannot overlap; R01b shared. Hunting wave 2: (R02j) csv.reader is fed a file opened with newline=''. Round 6: (E13b) no cost is memoised under a key that conflates 1, 1.0 and True. Hunting wave 3: (R02l) container equality keeps kinds apart - known; (R09b, R18a shared) a loader's wrapper or type erasure does not make unequal data equal - known.",
-    "C03": "Added: (R03d) the bottom-right cell is exhausted before the path is reconstructed; (R03g) sizes bound the computed leaf costs (size-derived caps of compound edits are sound); (R03h) multiset leftovers are counted with multiplicity and the matcher keeps its assignment by position - known findings. Round 3: (R03i) the pairs trimmed as shared prefix/suffix are listed as literal zero-cost matches (they are outside the cost matrix). Hunting wave 2: R02f (zero-size nodes make the size-derived cap unsound) is shared - known findings. Round 6: (R07l, shared) the annotated tree of a comparison carries that comparison's edits only. Hunting wave 3: (R02f containers, R04i shared) - known. Variants batch 4: R03a follows helpers of bounds() along the MRO; population findings are reported on the whole selecting expression.",
-    "C04": "Added: (R04g) incomplete-matrix lower bound over two consecutive anti-diagonals; (R04h) the progress flag of EditDistance agrees with its interval, degenerate alignments are definitive; (R04i) EditCollection's cap-minus-improvements interval - known finding; R03d/R03g/R03h are shared. Round 3: R04i checks the exact slack formula; recorded findings are pinned to a digest of their construct, so an edit inside one is reported. Round 4 / wave 2: (R04j) numpy cost accumulators are 64-bit; R02f shared (unsound cap) - known findings. Round 5: (R04k) both ends of the search's interval stay inside the caller's initial bounds. Round 6: (R17g, shared) a falsy best candidate is not mistaken for none. Hunting wave 3: (R02f containers) empty containers have size 0 - known. Round 7: (R04m) the lazily expanded collection reports no progress only when exhausted; (R03a shared) the interval is computed from the sub-edits the script lists - known. Variants batch 4: R03a (shared) - a bounds() that switches formula with the refinement state is seen through inherited helpers; the digest of the recorded population finding covers pool and count.",
-    "C05": "Added: (R05d) edges are distinct before the matcher solves; (R05e) driver loops agree; (R05f) EditCollection.edits is re-entrant (yields by position); R03d/R03h shared. Round 3: R05c covers continue/break paths (a candidate is dropped only under strict domination). Hunting wave 3: (R04i, H13 shared) - known.",
-    "C06": "Added: (E5d) an edit is rendered once - same-node forwarding handlers pass with_edits=False where the protocol can select them for an item; R01b shared. Round 3: (E10b) rendering through sub-edits is selected by structure, never by a cost test; (R02c3) shared. Hunting wave 2: (E10c) literal marker characters in colourless output - known findings. Round 5: E10b also covers an edit handed to GraphtageFormatter.print explicitly. Hunting wave 3: (R02b shared) unequal leaves at cost 0 print without marks - known. Round 7: (E10d) items of a printed collection stay whole (explode_edits=False). Variants batch 4: R01b / R01d extensions shared with C01.",
-    "C07": "Added: (R07d/e) no untyped or shared memo; (R07f) no default object repr reaches printed text or leaf costs; (R07g) process-wide installers (colorama.init) run at most once; (R07h) formatters restore the caller's printer; (R07i) builders for hash-ordered types canonicalise - known finding. Round 3: (R07j) no memoised function returns an object that is refined in place. Hunting wave 2: R07g also requires the process-wide colorama wrapper not to strip escapes. Round 5: (R07l) edited copies get fresh edit state after the wrapped node's attributes are copied; (E13) memo keys are complete. Hunting wave 3: (R07m) a loader's refusal does not print a hash-ordered object - known. Round 7: (R07n) no formatter flag is only ever set.",
-    "C08": "Added: (R08d) no ordering comparison steers the pairing of unordered collections; (R08e) the order behind the canonical sort is total; R02b/R02f/R02g shared (swapping unequal list elements costs something). Round 3: R08e also requires natively equal values (True == 1) to share a rank class. Round 4: (E11) shared. Hunting wave 3: (R18a shared) distinct keys stay distinct nodes - known. Round 7: (R01c shared) a comparison does not consume the members it matched. Variants batch 4: R08c: an item picked by a running index (range / enumerate, loop or comprehension) is positional pairing.",
-    "C09": "Added: (R09e) loaders never branch on the truth value of a parsed document; (R09f) sibling loaders open their file in the same (binary) mode. Round 3: R09e classifies conditional expressions and and/or selections; R09a: the options handed to the builder are the caller's. Round 4: R09e covers comprehension filters and filter(None, ...). Round 5 / wave 2: (E12) ancestor sets of recursive builders are unwound on every exit; (R09g) node containers compare in linear time. Round 7: (E12b) a set that is only grown is not used to refuse repeat visits. Variants batch 4: E12 reads tracker objects (enter/leave methods), recursion through helpers, enters in inner blocks, and counts a removal only if it is unconditional or under the enter's own test.",
-    "C10": "Added: R10a is a whole-program census (every list node built on any path reachable from a file type's build_tree carries the list options; copies keep them); R02g shared. Round 4: (E11) one-shot iterators shared. Round 7: R01c: only key equality decides the pre-match. Variants batch 4: R01d fed-by-partition (shared); R10a: the recursive-options clause covers the module-level helpers a builder calls.",
+    "C03": "Added: (R03d) the bottom-right cell is exhausted before the path is reconstructed; (R03g) sizes bound the computed leaf costs (size-derived caps of compound edits are sound); (R03h) multiset leftovers are counted with multiplicity and the matcher keeps its assignment by position - known findings. Round 3: (R03i) the pairs trimmed as shared prefix/suffix are listed as literal zero-cost matches (they are outside the cost matrix). Hunting wave 2: R02f (zero-size nodes make the size-derived cap unsound) is shared - known findings. Round 6: (R07l, shared) the annotated tree of a comparison carries that comparison's edits only. Hunting wave 3: (R02f containers, R04i shared) - known. Variants batch 4: R03a follows helpers of bounds() along the MRO; population findings are reported on the whole selecting expression. Batch 5: R04d (shared) reads chained stores and stores in helpers of bounds().",
+    "C04": "Added: (R04g) incomplete-matrix lower bound over two consecutive anti-diagonals; (R04h) the progress flag of EditDistance agrees with its interval, degenerate alignments are definitive; (R04i) EditCollection's cap-minus-improvements interval - known finding; R03d/R03g/R03h are shared. Round 3: R04i checks the exact slack formula; recorded findings are pinned to a digest of their construct, so an edit inside one is reported. Round 4 / wave 2: (R04j) numpy cost accumulators are 64-bit; R02f shared (unsound cap) - known findings. Round 5: (R04k) both ends of the search's interval stay inside the caller's initial bounds. Round 6: (R17g, shared) a falsy best candidate is not mistaken for none. Hunting wave 3: (R02f containers) empty containers have size 0 - known. Round 7: (R04m) the lazily expanded collection reports no progress only when exhausted; (R03a shared) the interval is computed from the sub-edits the script lists - known. Variants batch 4: R03a (shared) - a bounds() that switches formula with the refinement state is seen through inherited helpers; the digest of the recorded population finding covers pool and count. Batch 5: R04d reads chained stores and stores in helpers of bounds().",
+    "C05": "Added: (R05d) edges are distinct before the matcher solves; (R05e) driver loops agree; (R05f) EditCollection.edits is re-entrant (yields by position); R03d/R03h shared. Round 3: R05c covers continue/break paths (a candidate is dropped only under strict domination). Hunting wave 3: (R04i, H13 shared) - known. Variants batch 5: R04d (shared) reads chained stores and stores in helpers of bounds().",
+    "C06": "Added: (E5d) an edit is rendered once - same-node forwarding handlers pass with_edits=False where the protocol can select them for an item; R01b shared. Round 3: (E10b) rendering through sub-edits is selected by structure, never by a cost test; (R02c3) shared. Hunting wave 2: (E10c) literal marker characters in colourless output - known findings. Round 5: E10b also covers an edit handed to GraphtageFormatter.print explicitly. Hunting wave 3: (R02b shared) unequal leaves at cost 0 print without marks - known. Round 7: (E10d) items of a printed collection stay whole (explode_edits=False). Variants batch 4: R01b / R01d extensions shared with C01. Batch 5: E10b follows the source of the rendered sub-edits through helpers, methods of the edit and conditional expressions.",
+    "C07": "Added: (R07d/e) no untyped or shared memo; (R07f) no default object repr reaches printed text or leaf costs; (R07g) process-wide installers (colorama.init) run at most once; (R07h) formatters restore the caller's printer; (R07i) builders for hash-ordered types canonicalise - known finding. Round 3: (R07j) no memoised function returns an object that is refined in place. Hunting wave 2: R07g also requires the process-wide colorama wrapper not to strip escapes. Round 5: (R07l) edited copies get fresh edit state after the wrapped node's attributes are copied; (E13) memo keys are complete. Hunting wave 3: (R07m) a loader's refusal does not print a hash-ordered object - known. Round 7: (R07n) no formatter flag is only ever set. Variants batch 5: R07a infers set-returning functions from their returns.",
+    "C08": "Added: (R08d) no ordering comparison steers the pairing of unordered collections; (R08e) the order behind the canonical sort is total; R02b/R02f/R02g shared (swapping unequal list elements costs something). Round 3: R08e also requires natively equal values (True == 1) to share a rank class. Round 4: (E11) shared. Hunting wave 3: (R18a shared) distinct keys stay distinct nodes - known. Round 7: (R01c shared) a comparison does not consume the members it matched. Variants batch 4: R08c: an item picked by a running index (range / enumerate, loop or comprehension) is positional pairing. Batch 5: R08a covers cls(...) in other classmethods of the family and copy_from fills.",
+    "C09": "Added: (R09e) loaders never branch on the truth value of a parsed document; (R09f) sibling loaders open their file in the same (binary) mode. Round 3: R09e classifies conditional expressions and and/or selections; R09a: the options handed to the builder are the caller's. Round 4: R09e covers comprehension filters and filter(None, ...). Round 5 / wave 2: (E12) ancestor sets of recursive builders are unwound on every exit; (R09g) node containers compare in linear time. Round 7: (E12b) a set that is only grown is not used to refuse repeat visits. Variants batch 4: E12 reads tracker objects (enter/leave methods), recursion through helpers, enters in inner blocks, and counts a removal only if it is unconditional or under the enter's own test. Batch 5: R09c: flags read by name and through property setters.",
+    "C10": "Added: R10a is a whole-program census (every list node built on any path reachable from a file type's build_tree carries the list options; copies keep them); R02g shared. Round 4: (E11) one-shot iterators shared. Round 7: R01c: only key equality decides the pre-match. Variants batch 4: R01d fed-by-partition (shared); R10a: the recursive-options clause covers the module-level helpers a builder calls. Batch 5: R01a (shared): where edits() is unreadable, pairs are taken at one index.",
     "C12": "Added: (R12c) formatter state is reset between prints. Hunting wave 2: (R12d) empty containers have an explicit printed form in formats that read the empty document as null; (R12e) XML namespaces, (R12f) long YAML keys - known findings. Round 5: (E13) no value is cached under part of its inputs (a reused printer prints as a fresh one). Hunting wave 3: (R12g) the YAML scalar writer writes something on every path; (R12i) a format's root node prints itself through its formatter; (R12h) a line-terminated format is not given a second closing newline - known.",
-    "C13": "Added: (E5c) no dispatch cycle; (H8) override compatibility; (H9) colour palettes; (H10) context managers release only what they acquired; (H11) leaf objects handed to library encoders are inside the encoder's type switch (read from the library source) - plist/null is a known finding; (H6) copy() while printing (XMLElement.copy_from) - known finding. Round 3: (H6b) copy_from adopts the copies it is given; H11 carries per-value domains of partial encoders. Round 4 / wave 2: (H9b) colour constants are inside the HTML printer's lookup domain; (H12) every edits() tests the kind of the other node, mappings require key/value members; (H13) bytes values - known findings. Round 5: E5c also treats `self.print(printer, node.edit)` as a re-dispatch on the same node. Round 6: H11 also reads encoder keywords that narrow the encoder's domain (allow_nan=False). Hunting wave 3: (R18d, R18i shared) builders' recorded defects that end a comparison in a traceback - known. Variants batch 4: E5c resolves the receiver of .print through properties and .root, the edit through locals, and reads `edit.print(self, printer)`.",
+    "C13": "Added: (E5c) no dispatch cycle; (H8) override compatibility; (H9) colour palettes; (H10) context managers release only what they acquired; (H11) leaf objects handed to library encoders are inside the encoder's type switch (read from the library source) - plist/null is a known finding; (H6) copy() while printing (XMLElement.copy_from) - known finding. Round 3: (H6b) copy_from adopts the copies it is given; H11 carries per-value domains of partial encoders. Round 4 / wave 2: (H9b) colour constants are inside the HTML printer's lookup domain; (H12) every edits() tests the kind of the other node, mappings require key/value members; (H13) bytes values - known findings. Round 5: E5c also treats `self.print(printer, node.edit)` as a re-dispatch on the same node. Round 6: H11 also reads encoder keywords that narrow the encoder's domain (allow_nan=False). Hunting wave 3: (R18d, R18i shared) builders' recorded defects that end a comparison in a traceback - known. Variants batch 4: E5c resolves the receiver of .print through properties and .root, the edit through locals, and reads `edit.print(self, printer)`. Batch 5: H10 treats releases registered as callbacks on entry like calls in __exit__.",
     "C14": "Added: (R14e) newline convention; (R14f) no import-time Printer becomes a colour printer through a writer that always claims a terminal (--color reaches redirected output). Round 4: (R14g) every build_tree_handling_errors returns self.build_tree(path, options) unchanged; R14a roles follow side-parametrised helpers. Variants batch 4: R14c analyses the decorators of get_filetype.",
-    "C15": "Added: (R15b) the sentinel dominates the largest weight by construction; (R15c) every dtype returned is justified by the containment test on this call's arguments and the caller checks the integer range; (R15d) the empty-table answer precedes weight arithmetic; (R15f) numeric limits of the float64 solver and of the float sentinel - known findings. Round 3: role discovery follows locals and `is None` flags. Variants batch 4: R15a also where the solver is called in a helper: the rows of its answer are not thrown away.",
+    "C15": "Added: (R15b) the sentinel dominates the largest weight by construction; (R15c) every dtype returned is justified by the containment test on this call's arguments and the caller checks the integer range; (R15d) the empty-table answer precedes weight arithmetic; (R15f) numeric limits of the float64 solver and of the float sentinel - known findings. Round 3: role discovery follows locals and `is None` flags. Variants batch 4: R15a also where the solver is called in a helper: the rows of its answer are not thrown away. Batch 5: the weight table is bound once; a helper may not read weights back from the solver's array.",
     "C16": "Added: (R16h) the max-heap overrides every base method that takes a raw key. Hunting wave 2: (R16i) no heap method calls itself; (R16j) smallest/largest agree up to the heap class. Round 6: R16e: children of the extracted node lose their parent pointer when they become roots. Hunting wave 3: R16g: node comparisons other than < contain no equality test on keys.",
     "C17": "Added: (R17d) candidate heaps are cleared only where domination is established; (R17e) the search's goal branch reports progress, pruning against the caller's bounds is strict, make_distinct tightens until finite. Round 3: R17a checks the half-open interval encoding at every lookup; R17b/R01d are path-based. Round 4 / wave 2: R17a: nothing but the overlap test decides a re-insertion; (R17f) heap keys are refreshed after every tighten call. Round 5: R17a: every argument of make_distinct enters the interval tree. Round 6: (R17g) candidates are told from 'none yet' by identity, never by truth value.",
-    "C18": "Added: (R18e) builders are stateless; (R18f) recursion keeps options; (R18g) leaf branches precede the key refusal in json.build_tree; (R18h) every concrete node class has structural __eq__/__hash__ (no identity comparison of payload wrappers); (R18i) hashable positions: ordering and hashability of container keys/members - known findings. Round 4 / wave 2: R18d: no operand of the leaf shortcut bypasses expand(); (R18k) cycle reports do not repr() the objects on the cycle; (R18l) constructors do not hash subtrees, (R18m) build_dict does not merge entries - known findings. Round 5: (E12) shared. Hunting wave 3: R18k: cycle messages use a size-bounded formatter. Variants batch 4: R18f covers builder helpers; E12 extensions shared.",
+    "C18": "Added: (R18e) builders are stateless; (R18f) recursion keeps options; (R18g) leaf branches precede the key refusal in json.build_tree; (R18h) every concrete node class has structural __eq__/__hash__ (no identity comparison of payload wrappers); (R18i) hashable positions: ordering and hashability of container keys/members - known findings. Round 4 / wave 2: R18d: no operand of the leaf shortcut bypasses expand(); (R18k) cycle reports do not repr() the objects on the cycle; (R18l) constructors do not hash subtrees, (R18m) build_dict does not merge entries - known findings. Round 5: (E12) shared. Hunting wave 3: R18k: cycle messages use a size-bounded formatter. Variants batch 4: R18f covers builder helpers; E12 extensions shared. Batch 5: R18d: element-wise derived lists in the leaf test; identifier matching.",
     "C19": "Added: (R19c) the whitelist mapping is read-only; (R19f) get_member refuses members of interpreter objects (generators, frames, code, functions, modules) with a type()-based guard; (R19g) classes cannot be subscripted; (R19h) no public node method exports the instance dict to live-node evaluation - known finding. Round 3: R19a requires the guarded name to be the very value used for the access; R19c judges get_value as a whole. Hunting wave 2: (R19i) no isinstance() on evaluated values, raw subscripts go through get_item; (R19j) words are names, not float literals; R19e operators with interpreter-side reads - known findings. Round 5: R19c: eval()/get_value() keep no state on the Expression between evaluations. Hunting wave 3: R19e table extended (str.translate, property.getter, method repr) - known.",
     "C20": "Added: R20b also covers a frozen table of implicit raises (C code, unguarded parser state) and explicit raises of project functions reached while building the tree; (R20d) strict JSON constants - known finding. Round 3: (R20e) loaders parse the whole document (prefix parsers are followed by an end-of-input test). Round 4 / wave 2: implicit raises are keyed by parsing engine (pyexpat via ParserCreate); table entries for PyYAML's tagged-scalar constructors and plistlib dates. Variants batch 4: R20c: where main's loading is restructured, no value flowing from build_tree_handling_errors reaches a call on the logger.",
 }
